@@ -270,6 +270,18 @@ def ldap_schema(ctx, report):
             name = el.elts[0].value if isinstance(el.elts[0], ast.Constant) else None
             typ = ast.unparse(el.elts[1]).split('.')[-1]
             opts = {}
+            if len(el.elts) > 2 and not isinstance(el.elts[2], ast.Dict):
+                # the parameters are built by a helper (``_context_tag(0, optional=True)``): evaluated from its own statements
+                from ..miniexec import Evaluator, Raised, Unsupported, class_call_hook
+                try:
+                    h = class_call_hook(c, None, model)
+                    val = Evaluator({}, h, h.name_hook_for(lm, None)).ev(el.elts[2])
+                    if not isinstance(val, dict):
+                        raise Unsupported('schema parameters are %r' % (val,))
+                    opts = {k: (list(v) if isinstance(v, tuple) else v) for k, v in val.items()}
+                except (Unsupported, Raised) as e:
+                    report.add('C09.R6', '%s@schema[%s]' % (c.construct, name), 'the parameters of the schema entry cannot be evaluated: %s' % e)
+                    continue
             if len(el.elts) > 2 and isinstance(el.elts[2], ast.Dict):
                 for k, v in zip(el.elts[2].keys, el.elts[2].values):
                     kk = k.value
